@@ -33,11 +33,21 @@ def showExceptRat : Except Err Rat → String
 
 def parseCols (s : String) : Option (List (List Rat)) := parseList2 parseRat s
 
-def pwlOp (f : Rat → Rat → Bool → List (List Rat) → Rat) (m : Nat) : Handler := fun args =>
+/-- the `(rows, units)` kernel of the code from its columns (the wire carries columns); `none` when ragged -/
+def rowsOf (cols : List (List Rat)) : Option (List (List Rat)) :=
+  let n := (cols.head?.map List.length).getD 0
+  if cols.all (fun c => c.length == n) then some ((List.range n).map (fun i => cols.map (fun c => getR c i)))
+  else none
+
+/-- reply: code-shaped value on the `(rows, units)` matrix (row slices, axis-0 wrap-around row, `reduce_sum`
+over all entries), column-shaped value, documented norm -/
+def pwlOp (g : Rat → Rat → Bool → Nat → List (List Rat) → Rat)
+    (f : Rat → Rat → Bool → List (List Rat) → Rat) (m : Nat) : Handler := fun args =>
   match args with
   | [l1, l2, cyc, cols] => do
     let l1 ← parseRat l1; let l2 ← parseRat l2; let cyc ← parseBool cyc; let cols ← parseCols cols
-    pure s!"{showRat (f l1 l2 cyc cols)} {showRat (pwlSpec m l1 l2 cyc cols)}"
+    let rows ← rowsOf cols
+    pure s!"{showRat (g l1 l2 cyc cols.length rows)} {showRat (f l1 l2 cyc cols)} {showRat (pwlSpec m l1 l2 cyc cols)}"
   | _ => none
 
 def handlers : List (String × Handler) := [
@@ -64,8 +74,8 @@ def handlers : List (String × Handler) := [
         torSpec sizes (amtPair rank l1) (amtPair rank l2) (unitTable sizes units u t).get))
       pure s!"{showExceptRat code} {showRat spec}"
     | _ => none),
-  ("reg.pwl.lap", pwlOp pwlLaplacian 1),
-  ("reg.pwl.hess", pwlOp pwlHessian 2),
-  ("reg.pwl.wrinkle", pwlOp pwlWrinkle 3)
+  ("reg.pwl.lap", pwlOp pwlLaplacianRows pwlLaplacian 1),
+  ("reg.pwl.hess", pwlOp pwlHessianRows pwlHessian 2),
+  ("reg.pwl.wrinkle", pwlOp pwlWrinkleRows pwlWrinkle 3)
 ]
 end Tfl.Driver.Regularizers
